@@ -430,6 +430,19 @@ def special_value_cases(tier):
             yield dict(name="x ** p, 0-d tensor exponent %g, base %s" % (e, shape), op="power", operands=[xb, np.array(e)], mg=lambda x, p: x ** p, shadow=lambda x, p: x ** p, np=lambda x, p: x ** p)
             yield dict(name="p ** x, 0-d tensor base %g, exponent %s" % (e + 1, shape), op="power", operands=[np.array(e + 1.0), xb], mg=lambda p, x: p ** x, shadow=lambda p, x: p ** x, np=lambda p, x: p ** x)
             yield dict(name="x ** p, array exponent %g (scalar array operand)" % e, op="power", operands=[xb, np.array(e)], kinds=("t", "a"), mg=lambda x, p: x ** p, shadow=lambda x, p: x ** p, np=lambda x, p: x ** p)
+    # where= masks in every container NumPy accepts (list, tuple, tensor, NumPy bool scalar, 0-d array), for a unary and two binary ufuncs
+    mvals = [True, False, True]
+    mkinds = [("list", lambda: list(mvals)), ("tuple", lambda: tuple(mvals)), ("tensor", lambda: mg.tensor(mvals)), ("bool array", lambda: np.array(mvals)),
+              ("np.bool_ True", lambda: np.bool_(True)), ("np.bool_ False", lambda: np.bool_(False)),
+              ("0-d array False", lambda: np.array(False)), ("python False", lambda: False)]
+    xm, ym = vals((3,), 1, "pos"), vals((3,), 8)
+    for label, mk in mkinds:
+        marr = np.broadcast_to(np.asarray(mk().data if hasattr(mk(), "creator") else mk()).astype(bool), (3,))
+        yield dict(name="sqrt where=<%s>" % label, op="sqrt", operands=[xm], mg=(lambda mk: lambda x: mg.sqrt(x, where=mk()))(mk),
+                   shadow=(lambda marr: lambda x: np.where(marr, np.sqrt(x), 0.0))(marr), np=None, mask=marr)
+        for nm in ("add", "multiply"):
+            yield dict(name="%s where=<%s>" % (nm, label), op=nm, operands=[xm, ym], mg=(lambda mk, nm: lambda x, y: getattr(mg, nm)(x, y, where=mk()))(mk, nm),
+                       shadow=(lambda marr, nm: lambda x, y: np.where(marr, getattr(np, nm)(x, y), 0.0))(marr, nm), np=None, mask=marr)
     # where: every accepted kind of condition
     a, b = vals((2, 3), 1), vals((2, 3), 7)
     conds = [("bool array", np.array([[True, False, True], [False, False, True]])), ("int 0/1 array", np.array([[1, 0, 1], [0, 0, 1]])),
